@@ -243,7 +243,7 @@ func Now() Time {
                 what = "history missing in the reference run" if x is None else \
                     "with the clock shifted by %+d s the step differs in %s" % (off, [f for f in ("out", "post", "panic")
                                                                                      if x[f] != y[f]])
-                res["fail"].append({"prop": "C01", "pred": "ClockIndependent", "h": y["h"], "i": y["i"],
+                res["fail"].append({"prop": "C01", "pred": "ShiftedClockReplicaAgrees", "h": y["h"], "i": y["i"],
                                     "data": y["e"].get("data", ""), "cmd": y["e"].get("cmd", ""), "t": y["e"]["t"],
                                     "server": bool(y["e"].get("haspfx")), "det": what, "snap": "", "snapat": 0, "lines": "",
                                     "panics": "", "view": "", "rids": "",
@@ -479,7 +479,7 @@ def report(ctx, pid, extra_note=None):
         if sig in seen:
             continue
         seen.add(sig)
-        detail = {"ClockIndependent": f["det"], "ReplyIdsArePositions": f.get("rids", ""), "ExpireExact": f["panics"], "PublicViewMatchesState": f.get("view", ""), "ReplicasAgree": f["det"], "SaveLoadInvisible": "cut after entry %s: %s" % (f["snapat"], f["snap"]),
+        detail = {"ShiftedClockReplicaAgrees": f["det"], "ReplyIdsArePositions": f.get("rids", ""), "ExpireExact": f["panics"], "PublicViewMatchesState": f.get("view", ""), "ReplicasAgree": f["det"], "SaveLoadInvisible": "cut after entry %s: %s" % (f["snapat"], f["snap"]),
                   "OneLine": f["lines"], "NoPanic": f["panics"]}.get(f["pred"], "")
         what = "%s false after entry %d of history %d: %r %s" % (f["pred"], f["i"], f["h"], f["data"][:80], detail[:300])
         ctx.violation(sig, what, {"program": f["program"], "how": "VERIF_IRC_IN=<file with {\"prog\": program}> go test -run TestVerifIRC (see checks/irc_common.py)"})
